@@ -49,7 +49,13 @@ class Ctx:
         r = rta.run_oracle("release", cases, tag) if release else {}
         m = {}
         if model:
-            m, errs = rta.run_model(cases, tag)
+            # The debug-only brute-force cross-check inside fixed_point::search is modelled (dbg = true) but
+            # costs `limit` evaluations of the workload per search; C08_search_profile_independent /
+            # search_dbg_irrelevant prove it never fires for monotone workloads, so the dedicated and
+            # ECRTS'19 analyses are evaluated with dbg = false except for a 1-in-8 sample.  rr/bw (whose
+            # debug check is the brute-force step enumeration) always run with dbg = true.
+            HEAVY = ("fp_fp", "fp_np", "fp_lp", "fp_fnp", "edf_fp", "edf_np", "edf_lp", "edf_fnp", "fifo", "es", "timer", "pp", "chain")
+            m, errs = rta.run_model(cases, tag, dbg=lambda i, q: not (q[0] in HEAVY and i % 8 != 0))
         out = []
         for i, q in cases:
             dv, rv, mv = d.get(i), r.get(i), m.get(i)
@@ -832,3 +838,185 @@ class C13(Prop):
         finalize(ctx)
 KNOWN_PREDICATES["C13-beyond-horizon"] = lambda v: v.get("cls") == "oracle:raises_beyond_horizon"
 KNOWN_PREDICATES["C12-plateau-at-last"] = lambda v: v.get("cls") == "oracle:conv_inexact:plateau_at_last"
+
+# ============================================================================= exhaustive evaluators (python, from the implementation's own tables)
+def least_fix(limit, f):
+    for x in range(1, limit + 1):
+        if f(x) <= x: return x
+    return None
+
+def tab_fn(tab):
+    t = list(tab)
+    return lambda d: t[d] if d < len(t) else t[-1] + 10 ** 9     # beyond the table: never a solution
+
+def exh_generic(limit, bw_rhs, rhs, bound):
+    L = least_fix(limit, bw_rhs)
+    if L is None: return ("err", 0, limit)
+    best = 0
+    for A in range(0, L):
+        AF = least_fix(limit, lambda x: rhs(A, x))
+        if AF is None: return ("err", 0, limit)
+        best = max(best, bound(A, AF))
+    return ("ok", best)
+
+def exh_fp(B, rem, tua, hp, limit):
+    return exh_generic(limit, lambda L: B + hp(L) + tua(L), lambda A, x: B + max(0, tua(A + 1) - rem) + hp(x), lambda A, AF: max(0, AF - A) + rem)
+
+def exh_edf(use_blocking, rem, tua, D, others, limit):
+    """others: list of (rbf, D_o, seg)"""
+    def blocking(A):
+        if not use_blocking: return 0
+        return max([max(0, seg - 1) for (f, Do, seg) in others if Do > D + A and f(1) > 0], default=0)
+    return exh_generic(limit, lambda L: sum(f(L) for f, _, _ in others) + tua(L),
+                       lambda A, x: blocking(A) + max(0, tua(A + 1) - rem) + sum(f(min(x, max(0, A + 1 + D - Do))) for f, Do, _ in others),
+                       lambda A, AF: max(0, AF - A) + rem)
+
+def exh_fifo(total, limit):
+    L = least_fix(limit, total)
+    if L is None: return ("err", 0, limit)
+    return ("ok", max([max(0, total(A + 1) - A) for A in range(L)], default=0))
+
+def ded_query_parts(q):
+    """(tua_rb, [other rbs]) as RB expressions whose sntab is needed"""
+    k = q[0]
+    sc = lambda ab, C: ["rbf", ab, ["scalar", C]]
+    if k == "fp_fp": return q[1], list(q[2])
+    if k == "fp_np": return sc(q[1], q[2]), list(q[4])
+    if k == "fp_lp": return sc(q[1], q[2]), list(q[5])
+    if k == "fp_fnp": return q[1], list(q[3])
+    if k == "edf_fp": return q[1][0], [o[0] for o in q[2]]
+    if k == "edf_np": return sc(q[1][0], q[1][1]), [sc(o[0], o[1]) for o in q[2]]
+    if k == "edf_lp": return sc(q[1][0], q[1][1]), [o[0] for o in q[2]]
+    if k == "edf_fnp": return q[1][0], [o[0] for o in q[2]]
+    if k == "fifo": return q[1], []
+    raise ValueError(k)
+
+def ded_limit(q): return q[-1]
+
+def ded_exhaustive(q, tua_tab, other_tabs):
+    k = q[0]; limit = q[-1]
+    tua = tab_fn(tua_tab); ofs = [tab_fn(t) for t in other_tabs]
+    hp = lambda d: sum(f(d) for f in ofs)
+    if k == "fp_fp": return exh_fp(0, 0, tua, hp, limit)
+    if k == "fp_np": return exh_fp(q[3], q[2] - 1, tua, hp, limit)
+    if k == "fp_lp": return exh_fp(q[4], q[3] - 1, tua, hp, limit)
+    if k == "fp_fnp": return exh_fp(q[2], 0, tua, hp, limit)
+    if k == "edf_fp": return exh_edf(False, 0, tua, q[1][1], [(f, o[1], 0) for f, o in zip(ofs, q[2])], limit)
+    if k == "edf_np": return exh_edf(True, q[1][1] - 1, tua, q[1][2], [(f, o[2], o[1]) for f, o in zip(ofs, q[2])], limit)
+    if k == "edf_lp": return exh_edf(True, q[1][3] - 1, tua, q[1][2], [(f, o[1], o[2]) for f, o in zip(ofs, q[2])], limit)
+    if k == "edf_fnp": return exh_edf(True, 0, tua, q[1][1], [(f, o[1], o[2]) for f, o in zip(ofs, q[2])], limit)
+    if k == "fifo": return exh_fifo(tua, limit)
+    raise ValueError(k)
+
+def gen_ded_queries(rng, n, abkinds=None):
+    qs = []
+    while len(qs) < n:
+        r = rng.random()
+        if r < 0.42: qs += families.q_fp(rng, None, abkinds)
+        elif r < 0.84: qs += families.q_edf(rng, None, abkinds)
+        else: qs += families.q_fifo(rng, abkinds)
+    return qs
+
+def run_with_tables(ctx, queries):
+    """runs the analyses and, in the same batch, the sntab of every RBF involved (horizon limit + 1)"""
+    qs = []; index = []
+    for q in queries:
+        tua, others = ded_query_parts(q)
+        base = len(qs)
+        H = ded_limit(q) + 1
+        qs.append(q); qs.append(["sntab", tua, H])
+        for o in others: qs.append(["sntab", o, H])
+        index.append((base, len(others)))
+    rows = ctx.run(qs)
+    out = []
+    for (base, no), q in zip(index, queries):
+        tabs = [rows[base + 1 + i][1] for i in range(no + 1)]
+        out.append((rows[base], tabs))
+    return rows, out
+
+@register("C06")
+class C06(Prop):
+    rule = ("task sets of 1-4 tasks over periodic/sporadic(jitter)/bursty delta-min/extrapolating/propagated/summed curves, scalar costs, "
+            "utilisation steered over 0.3..1.1, limits 1..500, deadlines below/equal/above the period, segments in {1, C, random}; "
+            "oracle = naive exhaustive evaluation (every offset in [0, L), linear-scan fixed points) over the implementation's own "
+            "service_needed tables; non-trivial = distinct analysis query whose result is not Ok(0)")
+    proof_status = "full for all nine analyses over the function-level skeletons (see coverage.theorems)"
+    assumptions = ["the task under analysis can release a job (rbf(1) > 0); otherwise the search space is empty and the analyses return Ok(0)"]
+    def run(self, ctx):
+        rng = ctx.rng
+        queries = gen_ded_queries(rng, ctx.scale(450, 6000))
+        rows, packed = run_with_tables(ctx, queries)
+        ctx.correspond(rows)
+        for ((q, dv, rv, mv), tabs) in packed:
+            if any(t is None or t[0] != "l" for t in tabs): continue
+            ctx.dist("analysis", q[0])
+            if tabs[0][1][1] == 0: ctx.dist("tua", "never_arrives"); continue
+            exp = ded_exhaustive(q, tabs[0][1], [t[1] for t in tabs[1:]])
+            ctx.dist("outcome", exp[0])
+            for name, iv in (("debug", dv), ("release", rv)):
+                ctx.oracle("equals_exhaustive_evaluation", iv == exp,
+                           "%s (%s build) returns %s but exhaustive evaluation of its equations over every offset gives %s" % (q[0], name, rta.show(iv), rta.show(exp)),
+                           [q], cls="oracle:exhaustive:" + q[0])
+        finalize(ctx)
+
+# ============================================================================= C19
+@register("C19")
+class C19(Prop):
+    rule = ("pairs of corresponding inputs: LP(last=1)/FNP/FP, LP(last=C)/NP for FP and EDF, max NP-EDF over tasks with equal deadlines vs FIFO, "
+            "ROS 2 analyses under dedicated / periodic(Q=P) / constrained(Q=D=P) supplies, event source on a dedicated processor vs FIFO "
+            "(exact realisable curves); non-trivial = distinct query whose result is not Ok(0)")
+    proof_status = "full (see coverage.theorems)"
+    def run(self, ctx):
+        rng = ctx.rng
+        qs = []; meta = []
+        def pair(name, a, b):
+            qs.append(a); qs.append(b); meta.append((name, len(qs) - 2))
+        for _ in range(ctx.scale(110, 1500)):
+            tua, hp = families.gen_ded_system(rng, families.AB_ANALYSIS)
+            C = tua[2][1]; ab = tua[1]; B = rng.choice([0, rng.randint(0, 6)]); limit = families.pick_limit(rng)
+            pair("fp_lp(last=1)=fp_fnp", ["fp_lp", ab, C, 1, B, hp, limit], ["fp_fnp", tua, B, hp, limit])
+            pair("fp_lp(last=1,B=0)=fp_fp", ["fp_lp", ab, C, 1, 0, hp, limit], ["fp_fp", tua, hp, limit])
+            pair("fp_lp(last=C)=fp_np", ["fp_lp", ab, C, C, B, hp, limit], ["fp_np", ab, C, B, hp, limit])
+            D = rng.randint(1, 120)
+            od = [rng.choice([D, rng.randint(1, 150)]) for _ in hp]
+            pair("edf_lp(segs=1)=edf_fnp", ["edf_lp", [ab, C, D, 1], [[o, d, 1] for o, d in zip(hp, od)], limit], ["edf_fnp", [tua, D], [[o, d, 1] for o, d in zip(hp, od)], limit])
+            pair("edf_fnp(segs=1)=edf_fp", ["edf_fnp", [tua, D], [[o, d, 1] for o, d in zip(hp, od)], limit], ["edf_fp", [tua, D], [[o, d] for o, d in zip(hp, od)], limit])
+            pair("edf_lp(segs=C)=edf_np", ["edf_lp", [ab, C, D, C], [[o, d, o[2][1]] for o, d in zip(hp, od)], limit], ["edf_np", [ab, C, D], [[o[1], o[2][1], d] for o, d in zip(hp, od)], limit])
+        # NP-EDF with equal deadlines vs FIFO; event source vs FIFO
+        nmeta = []
+        for _ in range(ctx.scale(90, 1200)):
+            ts = gen.gen_taskset(rng, rng.randint(1, 4), rng.choice([0.3, 0.6, 0.9, 1.1]), families.AB_EXACT, True, True)
+            D = rng.randint(1, 100); limit = families.pick_limit(rng)
+            base = len(qs)
+            for i, t in enumerate(ts):
+                qs.append(["edf_np", [t[1], t[2][1], D], [[o[1], o[2][1], D] for j, o in enumerate(ts) if j != i], limit])
+            qs.append(["fifo", ["agg", ts], limit])
+            qs.append(["es", ["dedicated"], ["agg", ts], limit])
+            nmeta.append((base, len(ts)))
+        smeta = []
+        for _ in range(ctx.scale(110, 1500)):
+            P = rng.randint(1, 20)
+            q = families.q_ros(rng)[0]
+            base = len(qs)
+            for sb in (["dedicated"], ["periodic_s", P, P], ["constrained_s", P, P, P]):
+                qq = list(q); qq[1] = sb; qs.append(qq)
+            smeta.append(base)
+        rows = ctx.run(qs)
+        ctx.correspond(rows)
+        for name, i in meta:
+            a, b = rows[i], rows[i + 1]
+            ctx.dist("pair", name)
+            ctx.oracle(name, a[1] == b[1] and a[2] == b[2], "%s: %s vs %s" % (name, rta.show(a[1]), rta.show(b[1])), [a[0], b[0]], cls="oracle:agree:" + name)
+        for base, n in nmeta:
+            res = [rows[base + i][1] for i in range(n)]
+            fifo, es = rows[base + n][1], rows[base + n + 1][1]
+            if any(r is None for r in res) or fifo is None: continue
+            errs = [r for r in res if r[0] != "ok"]
+            mx = errs[0] if errs else ("ok", max(r[1] for r in res))
+            ctx.oracle("max NP-EDF(equal deadlines)=FIFO", mx == fifo, "largest NP-EDF bound %s vs FIFO %s" % (rta.show(mx), rta.show(fifo)), [rows[base + i][0] for i in range(n + 1)], cls="oracle:agree:npedf_fifo")
+            ctx.oracle("event_source(dedicated)=FIFO", es == fifo, "event source on a dedicated processor %s vs FIFO %s" % (rta.show(es), rta.show(fifo)), [rows[base + n][0], rows[base + n + 1][0]], cls="oracle:agree:es_fifo")
+        for base in smeta:
+            a, b, c = rows[base][1], rows[base + 1][1], rows[base + 2][1]
+            ctx.oracle("dedicated=periodic(Q=P)=constrained(Q=D=P)", a == b == c, "%s under dedicated / periodic(Q=P) / constrained(Q=D=P): %s / %s / %s" % (rows[base][0][0], rta.show(a), rta.show(b), rta.show(c)),
+                       [rows[base][0], rows[base + 1][0], rows[base + 2][0]], cls="oracle:agree:supplies")
+        finalize(ctx)
